@@ -20,6 +20,7 @@ mod s06;
 mod s07;
 mod s09;
 mod s10;
+mod s11;
 mod s14;
 mod report;
 mod s04;
@@ -48,6 +49,7 @@ fn main() {
         "s07" => s07::run(rest),
         "s09" => s09::run(rest),
         "s10" => s10::run(rest),
+        "s11" => s11::run(rest),
         "s08" => smem::s08(rest),
         "s15" => smem::s15(rest),
         "s03" => smem::s03(rest),
